@@ -56,6 +56,9 @@ CLAIMED = {
  "C13": ("TLA+ ISO 8601 duration grammar with arbitrary-length numbers (IsoText.RecDuration over BigNat limbs, exact rational fraction rounded to the microsecond) and interval forms; TLC trace validation of parsed durations/intervals in both back-ends",
          "every recorded parse of a duration string - all component subsets x values up to 10+ digits x fraction strings of 1..9 digits on each admissible unit x '.'/',' , the ill-formed classes the property names, numbers too large to represent - through parse() and each low-level parser is judged by TLC: years/months as given, remaining length equal to the exact value, rejection where demanded; the three interval forms against Add/Subtract of the spec",
          "TLC, harness projection; fractions whose exact value is a half-microsecond tie are not judged", "7 C13"),
+ "C17": ("TLA+: outcome predicate of parse() (a pendulum value or ValueError), recogniser Recognise/RecDuration as the reference for accepted strings, strict-mode alphabet predicate; TLC trace validation over character edits of valid forms, truncations, concatenations and random (incl. non-ASCII) strings x options, both back-ends",
+         "every recorded parse() outcome - seeds of all C07/C13 forms, their single character edits (sampled in the quick tier, all in the thorough tier), sampled double edits, truncations, concatenations, hand-written and random strings incl. non-ASCII digits, x {exact, strict, tz, day_first, year_first} - is judged by TLC: totality (value of one of the five types or ValueError) of parse() and of each low-level parser, equality of the two parsers where both accept, strict rejection of text with characters outside the ISO alphabet, and - for every string the spec's recogniser accepts - equality with the denoted value",
+         "TLC, harness projection; the dateutil fallback (strict=False) is constrained by totality only", "7 C17"),
 }
 NOT_YET = "check not built yet in this round (planned: see DESIGN.md section 7)"
 
